@@ -73,7 +73,12 @@ class Disposables:
             await self._dispose(initialized, failure)
             raise failure
 
-        return [*chain.from_iterable(cast(list[Iterable[State]], results))]
+        try:
+            return [*chain.from_iterable(cast(list[Iterable[State]], results))]
+
+        except BaseException as exc:  # provided state can't be collected, dispose what was initialized
+            await self._dispose(initialized, exc)
+            raise
 
     async def _dispose(
         self,
